@@ -543,7 +543,7 @@ func (m *c03Monitor) AfterTx(r *Run, ctx sdk.Context, tx *TxResult) {
 		if k == "wd" && tx.Op.M == 0 && tx.Note != "replay" {
 			w := pre.Stakers[tx.StakerID+"/"+tx.AssetID].WithdrawableAmount
 			if !w.IsNil() && tx.Amount.Sign() > 0 && tx.Amount.Cmp(w.BigInt()) <= 0 && !r.isNST(tx.AssetID) && !tx.OK {
-				r.Violate(m.Name(), "withdrawal-within-balance-accepted", "wd", fmt.Sprintf("withdrawal of %s by %s (withdrawable %s) rejected: code %d %s", tx.Amount, tx.StakerID, w, tx.Resp.Code, firstN(tx.Resp.Log, 300)))
+				r.Violate(m.Name(), "withdrawal-within-balance-accepted", errClass(tx), fmt.Sprintf("withdrawal of %s by %s (withdrawable %s) rejected: code %d %s", tx.Amount, tx.StakerID, w, tx.Resp.Code, firstN(tx.Resp.Log, 300)))
 				return
 			}
 		}
@@ -824,8 +824,13 @@ func errClass(tx *TxResult) string {
 	if i := strings.Index(msg, "stack:"); i >= 0 {
 		msg = msg[:i]
 	}
-	if len(msg) > 60 {
-		msg = msg[:60]
+	if strings.HasPrefix(msg, "failed to execute message; message index: ") {
+		if i := strings.Index(msg[42:], ": "); i >= 0 {
+			msg = msg[42+i+2:]
+		}
+	}
+	if len(msg) > 90 {
+		msg = msg[:90]
 	}
 	return normDigits(strings.TrimSpace(msg))
 }
